@@ -16,8 +16,8 @@ QUICK = {
    }
 THOROUGH = {
     "exhaustive": [("1sess-2mbox-4msgs-depth7", dict(depth=7, maxid=4, sess=("A",), mbox=("inbox", "b"), acts=ALL + ["Restart"]))],
-    "simulate": [("2mbox-restart", dict(mbox=("inbox", "b"), maxid=8, maxpend=8, sets="SetsMedium", acts=ALL + ["Restart"]), 1000, 30)],
-    "random": 2500,
+    "simulate": [("2mbox-restart", dict(mbox=("inbox", "b"), maxid=8, maxpend=8, sets="SetsMedium", acts=ALL + ["Restart"]), 700, 30)],
+    "random": 1000,
     "gen": dict(length=45, weights={"restart": 10, "append": 10, "deliver": 8, "expunge": 8, "store": 12, "copy": 5,
                                     "move": 5, "create": 4, "delete": 3, "rename": 3, "subscribe": 5, "poll": 6,
                                     "search": 0, "idle": 1, "done": 1, "fetch": 2, "fetchbody": 2},
